@@ -42,13 +42,13 @@ fn first_diff(a: &str, b: &str) -> String {
 }
 
 /// Child mode: print one fingerprint hash per requested (scenario, run_seed).
-fn child_mode(flows: &[Flow]) -> bool {
+fn child_mode(flows: &[LazyFlow]) -> bool {
     let Ok(spec) = std::env::var("VERIF_E5_CHILD") else { return false };
     for item in spec.split(';').filter(|s| !s.is_empty()) {
         let mut it = item.split(',');
         let (Some(name), Some(seed), Some(hexb)) = (it.next(), it.next(), it.next()) else { continue };
         let seed: u64 = seed.parse().unwrap_or(0);
-        let Some(f) = flows.iter().find(|f| f.kind.name() == name) else { continue };
+        let Some(f) = flows.iter().find(|f| f.kind.name() == name).map(|f| f.get()) else { continue };
         let bytes = if hexb == "-" { bytes_for(seed, EFFECTIVE_BYTES) } else { unhex(hexb) };
         let steps = workload(f.kind, seed);
         let obs = f.run(&bytes, &steps);
@@ -136,13 +136,13 @@ pub fn run_one(flow: &Flow, inp: &RunIn<'_>, pending_child: &Pending) -> RunOut 
 #[test]
 fn e2e_c38() {
     let Some(cfg) = cfg_for("C38") else { return };
-    let flows: Vec<Flow> = FlowKind::ALL.iter().map(|k| build(*k)).collect();
+    let flows: Vec<LazyFlow> = FlowKind::ALL.iter().map(|k| LazyFlow::new(*k)).collect();
     if child_mode(&flows) {
         return;
     }
     let pending: Pending = std::sync::Mutex::new(vec![]);
     let pend = &pending;
-    let scenarios: Vec<Scenario<'_>> = flows.iter().map(|f| Scenario { name: f.kind.name(), weight: 1, run: Box::new(move |inp: &RunIn<'_>| run_one(f, inp, pend)) }).collect();
+    let scenarios: Vec<Scenario<'_>> = flows.iter().map(|f| Scenario { name: f.kind.name(), weight: 1, run: Box::new(move |inp: &RunIn<'_>| run_one(f.get(), inp, pend)) }).collect();
     let post = move || -> PostOut {
         let mut po = PostOut::default();
         let q: Vec<(String, u64, u64, String)> = std::mem::take(&mut *pend.lock().unwrap());
